@@ -215,6 +215,9 @@ class Sweeper:
         if os.getcwd() != self.cwd:
             os.chdir(self.cwd)
         self.it.setStandardInput(self.cv.StringInput("line1\nline2\n"))
+        if self.out.closed:         # a generated close(stdout)
+            self.out = io.StringIO()
+            self.it.setStandardOutput(self.out)
         self.out.seek(0)
         self.out.truncate()
         try:
@@ -223,6 +226,21 @@ class Sweeper:
             bad = self.badvalue(v)
             if bad:
                 return ("badvalue", bad)
+            # a value is something the host can show (print, REPL, messages)
+            try:
+                with time_limit(budget):
+                    text = str(v)
+                if not isinstance(text, str):
+                    return ("badvalue", "str() of the result is a "
+                            + type(text).__name__)
+            except CaseTimeout:
+                return ("timeout",)
+            except RecursionError:
+                pass
+            except Exception as e:
+                return ("host", type(e).__name__ + " while rendering the "
+                        "result", cklrun.repo_frame(e.__traceback__),
+                        str(e)[:200])
             return ("value", v)
         except CklRuntimeError as e:
             if not isinstance(e.value, self.cv.Value):
